@@ -57,6 +57,12 @@ def m_per_degree(kinds):
     return fn
 
 
+def m_per_degree_zero(d):
+    # targets whose value is exactly zero: 0 dBm on one degree of roadm B, and on a degree of roadm A
+    el(d, 'roadm B')['params']['per_degree_pch_out_db'] = {'B>C:0:Fiber': 0.0, 'B>A:0:Fiber': -21.5}
+    el(d, 'roadm A')['params']['per_degree_pch_out_db'] = {'A>B:0:Edfa': 0}
+
+
 def m_design_bands(d):
     el(d, 'roadm A')['params']['design_bands'] = [{'f_min': 191.3e12, 'f_max': 196.1e12, 'spacing': 50e9},
                                                   {'f_min': 186.6e12, 'f_max': 190.0e12, 'spacing': 75e9}]
@@ -133,7 +139,7 @@ def m_impairments(d):
 TOPO_MUT = {
     'per_degree_pch': m_per_degree(['pch']), 'per_degree_psd': m_per_degree(['psd']), 'per_degree_psw': m_per_degree(['psw']),
     'per_degree_mixed': m_per_degree(['pch', 'psd', 'psw']), 'per_degree_two': m_per_degree(['psw', 'pch']),
-    'per_degree_interleaved': m_per_degree(['pch', 'psd', 'pch']),
+    'per_degree_interleaved': m_per_degree(['pch', 'psd', 'pch']), 'per_degree_zero': m_per_degree_zero,
     'design_bands': m_design_bands, 'design_bands_two_roadms': m_design_bands_two,
     'per_degree_two_roadms': m_per_degree_two_roadms, 'tables_and_lumped_on_two_fibres': m_two_tables, 'loss_table_asc': m_loss_table('asc'), 'loss_table_desc': m_loss_table('desc'),
     'loss_table_shuffled': m_loss_table('shuffled'), 'lumped_out_of_order': m_lumped, 'raman': m_raman, 'nulls': m_nulls,
@@ -441,8 +447,48 @@ def check_doc(kind, d, where, viol, tags):
             v(f'{kind}:yang-list-order-changes-meaning', f'list entries written in {how} order: '
               f'{str(cmp_docs(ref, canon_lists(dp), exact=True))[:400]}')
             break
+    # identityref leaves may be written with their module name in front (RFC 7951): the meaning is the same
+    if kind == 'topology':
+        Yq, n = prefix_identityrefs(Y)
+        if n:
+            try:
+                load_data(json.dumps(Yq))
+                dq = yang_to_legacy(copy.deepcopy(Yq))
+            except Exception as exc:  # noqa
+                v(f'{kind}:qualified-identityref-raised:{type(exc).__name__}', f'{n} identityref values written with the '
+                  f'module prefix: {str(exc)[:200]}')
+                dq = None
+            if dq is not None:
+                tags['yang-qualified-identityrefs'] = tags.get('yang-qualified-identityrefs', 0) + 1
+                if dq != d1:
+                    v(f'{kind}:qualified-identityref-changes-meaning', f'{n} identityref values written with the module prefix: '
+                      f'{str(cmp_docs(d1, dq, exact=True))[:400]}')
     tags[f'{kind}-docs'] = tags.get(f'{kind}-docs', 0) + 1
     return d1
+
+
+IDENTITYREF_LEAVES = ('length_units', 'propagation_direction')
+
+
+def prefix_identityrefs(doc, module='gnpy-network-topology'):
+    """copy of a YANG topology document in which the identityref leaves other than `type` carry the module prefix"""
+    n = 0
+
+    def walk(x):
+        nonlocal n
+        if isinstance(x, dict):
+            out = {}
+            for k, val in x.items():
+                if k.split(':')[-1] in IDENTITYREF_LEAVES and isinstance(val, str) and ':' not in val:
+                    out[k] = f'{module}:{val}'
+                    n += 1
+                else:
+                    out[k] = walk(val)
+            return out
+        if isinstance(x, list):
+            return [walk(i) for i in x]
+        return x
+    return walk(doc), n
 
 
 def run_case(case):
